@@ -425,6 +425,9 @@ fn form_literal_bytes(n: &mut Node, walk: &Walk) -> PassAction {
                             // example, if we have (<=ab), then we will get Cat(b, a) but we want
                             // literal bytes "ab".
                             curr_bytes.append(prev_bytes);
+                            // `append` leaves the capacity of the emptied vector allocated. Release it:
+                            // a run of n literals would otherwise keep O(n^2) dead bytes alive.
+                            *prev_bytes = Vec::new();
                         } else {
                             prev_bytes.append(curr_bytes);
                             core::mem::swap(prev_bytes, curr_bytes);
